@@ -114,6 +114,15 @@ def gen_probe_op(rng, trs_pool=None):
 def _perturb(rng, op):
     """Same text / strings as ``op`` but other settings (config, keywords)."""
     op = copy.deepcopy(op)
+    if "config" in op and rng.random() < 0.5:
+        # exactly one pipeline setting differs from the probe's own call
+        name = rng.choice(("ocr_scrub", "default_ns", "default_ew", "clean_qq",
+                           "segment", "layout", "sec_colon_required",
+                           "qq_depth_min", "suppress_lot_divs"))
+        extra = opgen.setting_to_text(name, opgen.setting_value(
+            rng, name, allow_false=False))
+        op["config"] = extra if not op["config"] else op["config"] + "," + extra
+        return op
     if "config" in op:
         op["config"] = opgen.gen_config_text(rng, hi=3, none_ok=False)
     for key, names in (("kw", ("parse_qq",)), ("pkw", ("parse_qq", "ocr_scrub",
